@@ -114,7 +114,7 @@ class ProgressConsoleHandler(logging.StreamHandler):
         )
         self.last_progress_msg = msg
 
-      if self.is_writing_progress_bar and not is_progress_bar_record:
+      if self.display_progress_bar and self.is_writing_progress_bar and not is_progress_bar_record:
         # erase and over write the progress bar
         stream.write('\r')
         length = len(self.last_progress_msg)
